@@ -256,3 +256,8 @@ for tag_ in ('u32', 'u16', 'u8', 'i16', 'i8'):
 VEC_TRUST = 'std::vector<uint8_t>::resize/reserve: assumed contracts of contracts/vecmodel.h (prefix preserved, value/zero fill, fails beyond max_size, may fail on allocation)'
 for fn_, rc_ in (('WriteImplementation', EXC2), ('Length', NOEXC), ('Position', NOEXC), ('SeekForward', EXC2), ('SeekBackward', EXC2), ('Seek', EXC2), ('GetReader', NOEXC)):
     G('dynw.' + fn_, ['C14'], 'dynw', 'DynamicMemoryWriter_' + fn_, replace=['vec_u8_resize', 'vec_u8_resize_fill', 'vec_u8_reserve', 'MemoryReader_ctor'], force_replace=(['MemoryReader_ctor'] if fn_ == 'GetReader' else []), reach=rc_, trusted=[VEC_TRUST], timeout=600)
+
+# ---- U-FILEW (C14: open flags)
+G('filew.TranslateFlags', ['C14'], 'filew', 'FileWriter_TranslateFlags', replace=['XFile_PathExists'], reach=EXC2, replay={'driver': 'filew_replay.cpp', 'case': 'flags'},
+  trusted=['C++ open-mode table and libstdc++ openmode values (contracts/filew.contracts); XFile::PathExists as an uninterpreted deterministic predicate'],
+  what='all 16 flag combinations x file exists/does not exist')
